@@ -460,6 +460,19 @@ impl SimScenario {
                 };
                 vec![self.obs(&ret, false)]
             }
+            "roundtrip" => {
+                // Process::state() followed by Node::set_process_state with that very state: nothing may change
+                let node_name = self.sys.proc_node_name(ws[1]);
+                let st = self.sys.get_node(&node_name).unwrap().get_process(ws[1]).unwrap().state().unwrap();
+                self.sys.get_mut_node(&node_name).unwrap().set_process_state(ws[1], st);
+                vec![self.obs("ok", false)]
+            }
+            "rand" => {
+                // the simulation-wide generator through the System API (C01 only: the draw stream of the model is not kept in step)
+                let x: u32 = self.sys.gen_range(0..1000000);
+                let t = self.sys.random_string(4);
+                vec![self.obs(&format!("{}-{}", x, t), false)]
+            }
             "read" => {
                 let ms = self.sys.read_local_messages(ws[1]);
                 vec![self.obs(&show_msgs(&ms), false)]
